@@ -78,8 +78,13 @@ pub fn nonzero(mut v: Vec<u64>, k: u64) -> Vec<u64> {
     v
 }
 
+/// The crate uses 32-bit limbs on targets without a native 64x64->128 multiplication (every 32-bit target).
+pub const LIMB32: bool = cfg!(not(all(target_pointer_width = "64", not(target_arch = "sparc"))));
+
+/// A non-zero single-limb operand (one *native* limb: below 2^32 on a 32-bit-limb target).
 fn scalar(k: u64) -> u64 {
-    limb_pattern(k, gen::mix(k)).max(1)
+    let v = limb_pattern(k, gen::mix(k));
+    (if LIMB32 { v & 0xffff_ffff } else { v }).max(1)
 }
 
 fn needs_limbs(n: &Nat) -> usize {
@@ -214,7 +219,7 @@ pub fn op_case(r: &Recipe) -> OpCase {
             OpCase { want, repr_bound: usize::MAX, x, op: BigOp::BigintPow(base, e), name: "Bigint::pow", strict, normalized_result: false }
         }
         7 => {
-            let n = 1 + (r.k[0] % 63) as usize;
+            let n = 1 + (r.k[0] % if LIMB32 { 31 } else { 63 }) as usize; // shl_bits requires n < LIMB_BITS
             OpCase { want: nx.shl(n as u64), repr_bound: x.len() + 1, x, op: BigOp::ShlBits(n), name: "shl_bits", strict, normalized_result: false }
         }
         8 => {
@@ -276,7 +281,7 @@ pub fn op_case(r: &Recipe) -> OpCase {
         }
         _ => {
             // the parser's mul_small(10^k) then add_small(v) chain
-            let m = 10u64.pow(1 + r.k[0] % 19);
+            let m = 10u64.pow(1 + r.k[0] % if LIMB32 { 9 } else { 19 });
             let a = gen::mix(k) % m;
             let want = nx.mul_small(m).add_small(a);
             OpCase { want, repr_bound: x.len() + 2, x, op: BigOp::MulSmallAddSmall(m, a), name: "mul_small then add_small", strict, normalized_result: false }
@@ -294,6 +299,9 @@ fn violation(cfg: &Cfg, c: &OpCase, what: String, observed: Value) -> Failure {
 }
 
 pub fn check_op(c: &OpCase, cfg: &Cfg, stats: &mut Stats) -> Result<(), Failure> {
+    if LIMB32 {
+        return check_op_limb32(c, cfg, stats);
+    }
     let fits = needs_limbs(&c.want) <= CAP;
     let out = catch(|| (cfg.big_apply)(&c.x, &c.op));
     let backend = if cfg.alloc { "heap" } else { "stack" };
@@ -339,9 +347,59 @@ pub fn check_op(c: &OpCase, cfg: &Cfg, stats: &mut Stats) -> Result<(), Failure>
     }
 }
 
+/// 32-bit-limb targets (interpreted by Miri with --target i686): the fixed capacity is 125 32-bit limbs, the
+/// limb-indexed operations are translated by the mlc layer (n 64-bit limbs = 2n 32-bit limbs), and the
+/// representation bounds of the 64-bit model are not exact there.  The value rule is unchanged (a result that is
+/// returned must be exact, with consistent len <= capacity <= 125); a reported failure / clean panic is accepted
+/// only if the result, or the representation bound of the 64-bit model, comes within two 64-bit limbs of the
+/// 62-limb capacity - anything smaller fits in 125 32-bit limbs with room to spare.
+fn check_op_limb32(c: &OpCase, cfg: &Cfg, stats: &mut Stats) -> Result<(), Failure> {
+    const CAP32: usize = 125;
+    let near_capacity = needs_limbs(&c.want).max(c.repr_bound).saturating_add(2) > CAP;
+    let backend = if cfg.alloc { "heap" } else { "stack" };
+    match catch(|| (cfg.big_apply)(&c.x, &c.op)) {
+        Err(msg) => {
+            if near_capacity && (matches!(c.op, BigOp::MulAssign(_)) || cfg.alloc) {
+                stats.count(&format!("{backend}:clean-panic-beyond-capacity"));
+                return Ok(());
+            }
+            Err(violation(cfg, c, format!("panicked (32-bit limbs): {msg} at {}", last_panic_location()), json!({"panic": msg})))
+        }
+        Ok(BigOut::Failed) => {
+            if !near_capacity {
+                return Err(violation(cfg, c, format!("reported failure (32-bit limbs) although the exact result needs only {} 64-bit limbs", needs_limbs(&c.want)), json!("None")));
+            }
+            stats.count(&format!("{backend}:reported-failure"));
+            Ok(())
+        }
+        Ok(BigOut::Ok { limbs, len, capacity }) => {
+            if Nat::from_limbs(&limbs) != c.want {
+                return Err(violation(cfg, c, "returned a wrong value (32-bit limbs)".into(), full(&limbs)));
+            }
+            if (len + 1) / 2 != limbs.len() || len > capacity || (!cfg.alloc && capacity != CAP32) {
+                return Err(violation(cfg, c, format!("inconsistent len {len} / capacity {capacity} (32-bit limbs)"), full(&limbs)));
+            }
+            Ok(())
+        }
+    }
+}
+
 fn check_observers(r: &Recipe, cfg: &Cfg, stats: &mut Stats) -> Result<(), Failure> {
     // normalised operands for hi64 / bit_length; any for is_normalized; ordering for normalised or equal-length pairs
-    let x = nonzero(operand(r.a, r.sel[1], true, CAP), r.b);
+    let x = if r.k[3] % 4 == 0 {
+        // a value of at most 64 significant bits at an arbitrary bit offset (exactly representable in the top
+        // 64 bits: the sticky flag must be false), or the same plus one far-away low bit (flag true)
+        let width = 1 + (r.k[0] % 64) as u64;
+        let v = (r.a >> (64 - width)) | (1u64 << (width - 1)) | if r.k[1] % 2 == 0 { 1 } else { 0 };
+        let s = (r.b % (64 * (CAP as u64 - 1) - 1)) as u64;
+        let mut n = Nat::from_u64(v).shl(s);
+        if r.k[2] % 3 == 0 && s > 0 {
+            n = n.add(&Nat::from_u64(1).shl(gen::mix(r.b) % s));
+        }
+        n.l.clone()
+    } else {
+        nonzero(operand(r.a, r.sel[1], true, CAP), r.b)
+    };
     let nx = Nat::from_limbs(&x);
     let mk = |what: &str, expected: String, observed: String| {
         Failure::violation(
@@ -414,6 +472,57 @@ fn check_observers(r: &Recipe, cfg: &Cfg, stats: &mut Stats) -> Result<(), Failu
     let nv = Nat::from_u64(v);
     if Nat::from_limbs(limbs) != nv || limbs.last() == Some(&0) || (rest[0], rest[1] != 0) != nv.hi64() || rest[2] != nv.bits() {
         return Err(mk("Bigint::from_u64/hi64/bit_length", format!("{v} -> {:?} bits {}", nv.hi64(), nv.bits()), format!("{:?}", f)));
+    }
+    // the five word-level helpers behind hi64 (the 32-bit ones are dead code on a 64-bit-limb target, so they
+    // are called directly): most significant word non-zero with every leading-zero count, lower words drawn
+    // from {0, one low bit, one high bit, all ones, random}
+    let word = |sel: u64, v: u64, bits: u32| -> u64 {
+        let m = if bits == 64 { u64::MAX } else { (1u64 << bits) - 1 };
+        (match sel % 6 {
+            0 => 0,
+            1 => 1,
+            2 => 1u64 << (bits - 1),
+            3 => m,
+            4 => 1u64 << (v % bits as u64),
+            _ => v,
+        }) & m
+    };
+    for which in 0..5u32 {
+        let bits: u32 = if which < 3 { 32 } else { 64 };
+        let words = match which {
+            0 | 3 => 1,
+            1 | 4 => 2,
+            _ => 3,
+        };
+        let h = gen::mix(r.a ^ r.b.rotate_left(which * 7 + 1) ^ which as u64);
+        let lz = (h >> 8) % bits as u64;
+        let m = if bits == 64 { u64::MAX } else { (1u64 << bits) - 1 };
+        let top_body = word(h >> 16, gen::mix(h), bits);
+        let r0 = ((top_body | (1u64 << (bits - 1))) & m) >> lz;
+        let r1 = if words >= 2 { word(h >> 24, gen::mix(h ^ 1), bits) } else { 0 };
+        let r2 = if words >= 3 { word(h >> 32, gen::mix(h ^ 2), bits) } else { 0 };
+        let mut n = Nat::from_u64(r0);
+        if words >= 2 {
+            n = n.shl(bits as u64).add(&Nat::from_u64(r1));
+        }
+        if words >= 3 {
+            n = n.shl(bits as u64).add(&Nat::from_u64(r2));
+        }
+        let want = n.hi64();
+        let name = ["u32_to_hi64_1", "u32_to_hi64_2", "u32_to_hi64_3", "u64_to_hi64_1", "u64_to_hi64_2"][which as usize];
+        let got = catch(|| (cfg.hi64_helper)(which, r0, r1, r2));
+        if got != Ok(want) {
+            return Err(Failure::violation(
+                format!("config {}: {name}({r0:#x}, {r1:#x}, {r2:#x}) = {:?} but the top 64 bits / sticky flag are {:?}", cfg.name, got, want),
+                format!("bigint-observer:{name}"),
+                json!({"kind": "bigint-hi64-helper", "config": cfg.name, "which": which, "r0": r0, "r1": r1, "r2": r2, "expected": format!("{:?}", want), "observed": format!("{:?}", got)}),
+            ));
+        }
+        if want.1 {
+            stats.count("hi64-helper-sticky-set");
+        } else if words >= 2 {
+            stats.count("hi64-helper-multiword-exact");
+        }
     }
     stats.count("observer-checks");
     Ok(())
